@@ -135,11 +135,48 @@ func checkProbe(r *rux.Router, s *seen, tb *model.Table, method, path string, ta
 		if !reflect.DeepEqual(s.params, got) {
 			return fmt.Sprintf("handler saw Params %v, Match reported %v: %s", s.params, got, ctx)
 		}
+		// the same request arriving for /pre<path> and handed on by http.StripPrefix: the router sees <path> in the
+		// request's URL (RequestURI still says /pre<path>, as a server sets it) - same route, same parameters
+		if u := reqURL(tb, path); strings.HasPrefix(path, "/") {
+			pre := &http.Request{Method: method, URL: &url.URL{Path: "/pre" + u.Path, RawPath: ""}, Header: http.Header{}, RequestURI: "/pre" + u.EscapedPath()}
+			if u.RawPath != "" || tb.Opts.EncodedPath {
+				pre.URL.RawPath = "/pre" + u.EscapedPath()
+			}
+			s.n = 0
+			http.StripPrefix("/pre", r).ServeHTTP(httptest.NewRecorder(), pre)
+			if s.n != 1 || s.name != d.Name() || !reflect.DeepEqual(s.params, got) {
+				return fmt.Sprintf("behind http.StripPrefix(/pre): handler of %q ran %d times with Params %v, directly %v: %s", s.name, s.n, s.params, got, ctx)
+			}
+		}
 		for k, v := range got {
 			if s.byGet[k] != v {
 				return fmt.Sprintf("Context.Param(%q)=%q, Match reported %q: %s", k, s.byGet[k], v, ctx)
 			}
 		}
+	}
+	return ""
+}
+
+// strayCapturingGroup offers a route whose variable regex hides a capturing group behind a non-capturing one.  rux
+// refuses such definitions (C13); should one be accepted, the parameters must still be the captured path substrings.
+func strayCapturingGroup(r *rux.Router) string {
+	var a, b string
+	var ran bool
+	accepted := true
+	func() {
+		defer func() {
+			if recover() != nil {
+				accepted = false
+			}
+		}()
+		r.GET("/zz-stray/{a:(?:\\d+)(-\\w+)?}/{b}", func(c *rux.Context) { ran, a, b = true, c.Param("a"), c.Param("b") })
+	}()
+	if !accepted {
+		return ""
+	}
+	r.ServeHTTP(httptest.NewRecorder(), &http.Request{Method: "GET", URL: &url.URL{Path: "/zz-stray/12-ab/zz"}, Header: http.Header{}})
+	if !ran || a != "12-ab" || b != "zz" {
+		return fmt.Sprintf("route /zz-stray/{a:(?:\\d+)(-\\w+)?}/{b} was accepted; GET /zz-stray/12-ab/zz ran=%v a=%q b=%q, the captured substrings are a=12-ab b=zz", ran, a, b)
 	}
 	return ""
 }
@@ -169,6 +206,11 @@ func prop(t *rapid.T) {
 		ev.Class("handlers-mutate-their-params")
 	}
 	r := build(tb, s)
+	if rapid.IntRange(0, 7).Draw(t, "strayGroup") == 0 {
+		if msg := strayCapturingGroup(r); msg != "" {
+			t.Fatalf("%s", msg)
+		}
+	}
 	np := rapid.IntRange(1, 8).Draw(t, "nprobes")
 	for i := 0; i < np; i++ {
 		path, kind, target, vals, k := model.GenProbePath(t, tb.Routes)
